@@ -142,7 +142,9 @@ func (f *freshnessCalculator) CalculateFreshness(
 		usefulLife = maxAge // Response is fresh for max-age seconds
 	}
 
-	if usefulLife == 0 {
+	// An explicit max-age (even 0 or unusable) takes precedence over Expires and
+	// heuristics (RFC9111 §4.2.1).
+	if !resCC.MaxAgePresent() {
 		expires, found, valid := entry.ExpiresHeader()
 		switch {
 		case valid && expires.After(date):
